@@ -29,11 +29,11 @@ Proof. destruct r; cbn; eauto. Qed.
 Lemma sim_err {A} (R : A -> A -> Prop) e : sim R (Err e) (Err e).
 Proof. reflexivity. Qed.
 
-(* related and materialised on the right *)
-Definition vr (v m : node) : Prop := vrel v m /\ novirt m.
+(* v is m with some subtrees replaced by virtual nodes (vrel); none of the facts below needs m to be materialised *)
+Definition vr (v m : node) : Prop := vrel v m.
 
-Lemma vr_refl_novirt x : novirt x -> vr x x.
-Proof. intros Hx. split; [constructor|exact Hx]. Qed.
+Lemma vr_refl x : vr x x.
+Proof. constructor. Qed.
 
 Lemma vr_children v m : vr v m ->
   match children m with
@@ -41,43 +41,58 @@ Lemma vr_children v m : vr v m ->
   | None => children v = None
   end.
 Proof.
-  intros [Hv Hm]. pose proof (vrel_children H src v m Hv Hm) as Hc. destruct (children m) as [[ml mr]|] eqn:Em; [|exact Hc].
-  destruct Hc as (vl & vr' & Ec & Hl & Hr). destruct (novirt_child src m ml mr Hm Em) as [Hnl Hnr]. exists vl, vr'. repeat split; auto.
+  intros Hv. inversion Hv as [n|m0 Hc|l r l' r' Hl Hr]; subst.
+  - destruct (children m) as [[ml mr]|]; [|reflexivity]. exists ml, mr. repeat split; constructor.
+  - destruct m as [r0|ml mr|r0]; cbn in Hc; try contradiction.
+    + cbn [Tree.children Tree.root]. now rewrite Hc.
+    + destruct Hc as (Hs & Hcl & Hcr). cbn [Tree.children Tree.root] in *. rewrite Hs.
+      exists (VirtN (root ml)), (VirtN (root mr)). repeat split; now constructor.
+  - cbn [Tree.children]. exists l, r. repeat split; assumption.
 Qed.
 
-Lemma vr_get p v m : vr v m -> sim vr (getter v p) (getter m p).
+Lemma vr_get : forall p v m, vr v m -> sim vr (getter v p) (getter m p).
 Proof.
-  intros [Hv Hm]. pose proof (vrel_get H src p v m Hv Hm) as Hg. unfold sim. destruct (getter m p) as [y|e] eqn:Ey; [|exact Hg].
-  destruct Hg as (x & Hx & Hr). exists x. split; [exact Hx|]. split; [exact Hr|]. now apply (novirt_getter src p m y).
+  induction p as [|b p IH]; intros v m Hv; [now apply sim_ret|].
+  cbn [Tree.getter]. pose proof (vr_children v m Hv) as Hc. destruct (children m) as [[ml mr]|].
+  - destruct Hc as (vl & vr' & -> & Hl & Hr). destruct b; now apply IH.
+  - rewrite Hc. reflexivity.
 Qed.
 
-Lemma novirt_set_below e : forall p n v n', novirt n -> novirt v -> setter_below e n p v = Ok n' -> novirt n'.
+(* writes of related nodes at the same position: same failure, or related results *)
+Lemma vr_set_below e : forall p v m xv xm, vr v m -> vr xv xm -> sim vr (setter_below e v p xv) (setter_below e m p xm).
 Proof.
-  induction p as [|b p IH]; intros n v n' Hn Hv Hs; cbn [Tree.setter_below] in Hs; [inversion Hs; subst; exact Hv|].
-  destruct (children n) as [[l r]|] eqn:Hc.
-  - destruct n as [r0|nl nr|r0]; cbn in Hc, Hn; try discriminate; try contradiction. inversion Hc; subst l r. destruct Hn as [Hl Hr].
-    apply rebuild_ok in Hs as (c & Hc' & ->). destruct b; cbn; split; auto; [exact (IH nr v c Hr Hv Hc')|exact (IH nl v c Hl Hv Hc')].
-  - destruct (e && bytes_eqb (root n) (zero_hash H (length (b :: p)))); [|discriminate].
-    apply rebuild_ok in Hs as (c & Hc' & ->). assert (novirt (zero_node H (length p))) as Hz by exact I.
-    destruct b; cbn; split; auto; exact (IH (zero_node H (length p)) v c Hz Hv Hc').
+  induction p as [|b p IH]; intros v m xv xm Hv Hx; [now apply sim_ret|].
+  cbn [Tree.setter_below]. pose proof (vr_children v m Hv) as Hc. destruct (children m) as [[ml mr]|].
+  - destruct Hc as (vl & vr' & -> & Hl & Hr). destruct b.
+    + pose proof (IH vr' mr xv xm Hr Hx) as Hi. unfold sim in Hi |- *. destruct (setter_below e mr p xm) as [c|er].
+      * destruct Hi as (c' & -> & Hrc). cbn [rebuild]. eexists; split; [reflexivity|]. now constructor.
+      * rewrite Hi. reflexivity.
+    + pose proof (IH vl ml xv xm Hl Hx) as Hi. unfold sim in Hi |- *. destruct (setter_below e ml p xm) as [c|er].
+      * destruct Hi as (c' & -> & Hrc). cbn [rebuild]. eexists; split; [reflexivity|]. now constructor.
+      * rewrite Hi. reflexivity.
+  - rewrite Hc. rewrite (vrel_root H src v m Hv).
+    destruct (e && bytes_eqb (root m) (zero_hash H (length (b :: p)))); [|reflexivity].
+    pose proof (IH (zero_node H (length p)) (zero_node H (length p)) xv xm (vr_refl _) Hx) as Hi. unfold sim in Hi |- *.
+    destruct (setter_below e (zero_node H (length p)) p xm) as [c|er].
+    + destruct Hi as (c' & -> & Hrc). cbn [rebuild]. eexists; split; [reflexivity|]. destruct b; constructor; auto; constructor.
+    + rewrite Hi. reflexivity.
 Qed.
 
-(* writes: identical, except that an EXPANDING write through a childless virtual node at the very top fails
-   where a zero leaf would expand — so expanding writes need the top node to have children *)
-Lemma vr_set e p v m x : vr v m -> novirt x -> (e = true -> children m <> None) ->
-  sim vr (setter e v p x) (setter e m p x).
+(* ... through the public setter: identical, except that an EXPANDING write through a childless virtual node at the
+   very top fails where a zero leaf would expand — so expanding writes need the top node to have children *)
+Lemma vr_set e p v m xv xm : vr v m -> vr xv xm -> (e = true -> children m <> None) ->
+  sim vr (setter e v p xv) (setter e m p xm).
 Proof.
-  intros [Hv Hm] Hx Hch.
-  destruct (children m) as [[l r]|] eqn:Em.
-  - pose proof (vrel_set H src e p v m x Hv Hm ltac:(eauto)) as Hs. unfold sim. destruct (setter e m p x) as [m'|er] eqn:Es; [|exact Hs].
-    destruct Hs as (v' & Hv' & Hr & _). exists v'. split; [exact Hv'|]. split; [exact Hr|].
-    apply setter_as_below in Es. now apply (novirt_set_below e p m x m').
-  - (* childless top: only non-expanding writes, which fail alike unless the path is empty *)
-    destruct e; [exfalso; now apply Hch|].
-    rewrite !setter_unfold. destruct p as [|b p]; [apply sim_ret; now apply vr_refl_novirt|].
-    pose proof (vrel_children H src v m Hv Hm) as Hc. rewrite Em in Hc.
-    destruct m as [r0|ml mr|r0]; cbn in Em, Hm; try discriminate; try contradiction.
-    destruct v as [r1|vl vr'|r1]; cbn [Tree.setter_below]; rewrite ?Hc; cbn; reflexivity.
+  intros Hv Hx Hch. pose proof (vr_children v m Hv) as Hc.
+  assert (setter e m p xm = setter_below e m p xm /\ setter e v p xv = setter_below e v p xv) as [-> ->]; [|now apply vr_set_below].
+  rewrite !setter_unfold. destruct p as [|b p]; [split; reflexivity|].
+  destruct (children m) as [[ml mr]|] eqn:Em.
+  - destruct Hc as (vl & vr' & Ec & _). split.
+    + destruct m; try reflexivity; cbn [Tree.setter_below]; rewrite ?Em; reflexivity.
+    + destruct v; try reflexivity; cbn [Tree.setter_below]; rewrite ?Ec; reflexivity.
+  - destruct e; [exfalso; now apply Hch|]. split.
+    + destruct m; try reflexivity; cbn [Tree.setter_below]; rewrite ?Em; reflexivity.
+    + destruct v; try reflexivity; cbn [Tree.setter_below]; rewrite ?Hc; reflexivity.
 Qed.
 
 Notation getter_i := (getter_i src).
@@ -87,15 +102,15 @@ Notation setter_g := (setter_g H src).
 Notation mixin_value := (mixin_value H src).
 
 Lemma vr_root v m : vr v m -> root v = root m.
-Proof. intros [Hv _]. exact (vrel_root H src v m Hv). Qed.
+Proof. exact (vrel_root H src v m). Qed.
 
 Lemma vr_getter_g v m g : vr v m -> sim vr (getter_g v g) (getter_g m g).
 Proof. intros Hv. unfold Tree.getter_g. destruct (path_of_gindex g); [now apply vr_get|reflexivity]. Qed.
 Lemma vr_getter_i v m i d : vr v m -> sim vr (getter_i v i d) (getter_i m i d).
 Proof. intros Hv. unfold ModelCodec.getter_i. destruct (to_gindex i d); cbn [bind]; [now apply vr_getter_g|reflexivity]. Qed.
-Lemma vr_setter_g e v m g x : vr v m -> novirt x -> (e = true -> children m <> None) -> sim vr (setter_g e v g x) (setter_g e m g x).
+Lemma vr_setter_g e v m g xv xm : vr v m -> vr xv xm -> (e = true -> children m <> None) -> sim vr (setter_g e v g xv) (setter_g e m g xm).
 Proof. intros Hv Hx Hc. unfold Tree.setter_g. destruct (path_of_gindex g); [now apply vr_set|reflexivity]. Qed.
-Lemma vr_setter_i e v m i d x : vr v m -> novirt x -> (e = true -> children m <> None) -> sim vr (setter_i e v i d x) (setter_i e m i d x).
+Lemma vr_setter_i e v m i d xv xm : vr v m -> vr xv xm -> (e = true -> children m <> None) -> sim vr (setter_i e v i d xv) (setter_i e m i d xm).
 Proof. intros Hv Hx Hc. unfold ModelMut.setter_i. destruct (to_gindex i d); cbn [bind]; [now apply vr_setter_g|reflexivity]. Qed.
 
 Lemma vr_get_right v m : vr v m -> sim vr (get_right src v) (get_right src m).
@@ -110,10 +125,10 @@ Proof.
   - destruct Hc as (vl & vr' & -> & Hl & _). now apply sim_ret.
   - rewrite Hc. reflexivity.
 Qed.
-Lemma vr_rebind_right v m x : vr v m -> novirt x -> sim vr (rebind_right src v x) (rebind_right src m x).
+Lemma vr_rebind_right v m xv xm : vr v m -> vr xv xm -> sim vr (rebind_right src v xv) (rebind_right src m xm).
 Proof.
   intros Hv Hx. unfold rebind_right. pose proof (vr_children v m Hv) as Hc. destruct (children m) as [[ml mr]|].
-  - destruct Hc as (vl & vr' & -> & [Hl Hnl] & _). apply sim_ret. split; [constructor; [exact Hl|constructor]|split; assumption].
+  - destruct Hc as (vl & vr' & -> & Hl & _). apply sim_ret. now constructor.
   - rewrite Hc. reflexivity.
 Qed.
 Lemma vr_mixin v m : vr v m -> sim eq (mixin_value v) (mixin_value m).
@@ -128,7 +143,7 @@ Lemma vr_summarize_g v m g : vr v m -> sim vr (summarize_into_g H src v g) (summ
 Proof.
   intros Hv. unfold summarize_into_g, summarize_into. destruct (path_of_gindex g) as [p|]; [|reflexivity].
   apply (sim_bind vr vr _ _ _ _ (vr_get p v m Hv)). intros x y Hxy _ _. rewrite (vr_root x y Hxy).
-  apply vr_set; [exact Hv|exact I|discriminate].
+  apply vr_set; [exact Hv|apply vr_refl|discriminate].
 Qed.
 
 (* ---- view operations: the virtual tree computes what the materialised tree computes ---- *)
@@ -147,39 +162,39 @@ Proof.
   destruct (match t with TContainer _ => None | _ => basic_size e end) as [sz|]; [|now apply vr_getter_i].
   apply (sim_bind vr vr _ _ _ _ (vr_getter_i v m _ _ Hv)). intros c c' Hc _ _.
   unfold packed_elem_bytes. rewrite (vr_root c c' Hc).
-  match goal with |- sim _ (bind ?A _) _ => destruct A as [b|]; cbn [bind]; [apply sim_ret; apply vr_refl_novirt; exact I|reflexivity] end.
+  match goal with |- sim _ (bind ?A _) _ => destruct A as [b|]; cbn [bind]; [apply sim_ret; apply vr_refl|reflexivity] end.
 Qed.
 
-Lemma vr_sub_set t v m i x : vr v m -> novirt x -> sim vr (sub_set H src t v i x) (sub_set H src t m i x).
+Lemma vr_sub_set t v m i xv xm : vr v m -> vr xv xm -> sim vr (sub_set H src t v i xv) (sub_set H src t m i xm).
 Proof.
-  intros Hv Hx. unfold ModelMut.sub_set. destruct (elem_ty t i) as [e|]; [|reflexivity]. cbn [bind].
+  intros Hv Hx. unfold ModelMut.sub_set. rewrite (vr_root xv xm Hx). destruct (elem_ty t i) as [e|]; [|reflexivity]. cbn [bind].
   destruct (match t with TContainer _ => None | _ => basic_size e end) as [sz|]; [|apply vr_setter_i; [exact Hv|exact Hx|discriminate]].
-  apply (sim_bind vr vr _ _ _ _ (vr_setter_i false v m _ _ (RootN zero32) Hv I ltac:(discriminate))). intros _ _ _ _ _.
+  apply (sim_bind vr vr _ _ _ _ (vr_setter_i false v m _ _ (RootN zero32) (RootN zero32) Hv (vr_refl _) ltac:(discriminate))). intros _ _ _ _ _.
   apply (sim_bind vr vr _ _ _ _ (vr_getter_i v m _ _ Hv)). intros c c' Hc _ _. rewrite (vr_root c c' Hc).
-  apply vr_setter_i; [exact Hv|exact I|discriminate].
+  apply vr_setter_i; [exact Hv|apply vr_refl|discriminate].
 Qed.
 
 Theorem vr_view_get t v m i : vr v m -> sim vr (view_get H src t v i) (view_get H src t m i).
 Proof.
   intros Hv. unfold ModelMut.view_get. apply (sim_bind eq vr _ _ _ _ (vr_check_index t v m i Hv)). intros k k' -> _ _. now apply vr_sub_get.
 Qed.
-Theorem vr_view_set t v m i x : vr v m -> novirt x -> sim vr (view_set H src t v i x) (view_set H src t m i x).
+Theorem vr_view_set t v m i xv xm : vr v m -> vr xv xm -> sim vr (view_set H src t v i xv) (view_set H src t m i xm).
 Proof.
   intros Hv Hx. unfold ModelMut.view_set. apply (sim_bind eq vr _ _ _ _ (vr_check_index t v m i Hv)). intros k k' -> _ _. now apply vr_sub_set.
 Qed.
 
-Theorem vr_list_append t v m x : vr v m -> novirt x -> sim vr (list_append H src t v x) (list_append H src t m x).
+Theorem vr_list_append t v m xv xm : vr v m -> vr xv xm -> sim vr (list_append H src t v xv) (list_append H src t m xm).
 Proof.
-  intros Hv Hx. unfold ModelMut.list_append. destruct t; try reflexivity.
+  intros Hv Hx. unfold ModelMut.list_append. rewrite (vr_root xv xm Hx). destruct t; try reflexivity.
   apply (sim_bind eq vr _ _ _ _ (vr_mixin v m Hv)). intros ll ll' -> _ Hmm. pose proof (mixin_children m ll' Hmm) as Hch.
   destruct (limit <=? ll'); [reflexivity|]. cbv zeta.
   match goal with |- sim _ (bind ?A _) (bind ?B _) => assert (sim vr A B) as Hab end.
   { destruct (basic_size t) as [s0|]; [|apply vr_setter_i; auto].
-    destruct (ll' mod elems_per_chunk s0 =? 0); [apply vr_setter_i; [exact Hv|exact I|auto]|].
-    apply (sim_bind vr vr _ _ _ _ (vr_setter_i false v m _ _ (RootN zero32) Hv I ltac:(discriminate))). intros _ _ _ _ _.
+    destruct (ll' mod elems_per_chunk s0 =? 0); [apply vr_setter_i; [exact Hv|apply vr_refl|auto]|].
+    apply (sim_bind vr vr _ _ _ _ (vr_setter_i false v m _ _ (RootN zero32) (RootN zero32) Hv (vr_refl _) ltac:(discriminate))). intros _ _ _ _ _.
     apply (sim_bind vr vr _ _ _ _ (vr_getter_i v m _ _ Hv)). intros c c' Hc _ _. rewrite (vr_root c c' Hc).
-    apply vr_setter_i; [exact Hv|exact I|discriminate]. }
-  apply (sim_bind vr vr _ _ _ _ Hab). intros nb mb Hb _ _. apply vr_rebind_right; [exact Hb|exact I].
+    apply vr_setter_i; [exact Hv|apply vr_refl|discriminate]. }
+  apply (sim_bind vr vr _ _ _ _ Hab). intros nb mb Hb _ _. apply vr_rebind_right; [exact Hb|apply vr_refl].
 Qed.
 
 Lemma vr_summarize_up v m g : vr v m -> sim vr (summarize_up H src v g) (summarize_up H src m g).
@@ -195,14 +210,14 @@ Proof.
   { destruct (basic_size t) as [s0|].
     - destruct (to_gindex ((ll' - 1) / elems_per_chunk s0) (tree_depth (TList t limit))) as [g|]; [|reflexivity]. cbn [bind].
       destruct ((ll' - 1) mod elems_per_chunk s0 =? 0) eqn:E0; cbn [bind].
-      + eapply sim_bind; [apply vr_setter_g; [exact Hv|exact I|discriminate]|]. intros nb mb Hb _ _. apply sim_ret. cbn. auto.
+      + eapply sim_bind; [apply vr_setter_g; [exact Hv|apply vr_refl|discriminate]|]. intros nb mb Hb _ _. apply sim_ret. cbn. auto.
       + apply (sim_bind vr _ _ _ _ _ (vr_getter_g v m g Hv)). intros c c' Hc _ _. rewrite (vr_root c c' Hc).
-        eapply sim_bind; [apply vr_setter_g; [exact Hv|exact I|discriminate]|]. intros nb mb Hb _ _. apply sim_ret. cbn. auto.
+        eapply sim_bind; [apply vr_setter_g; [exact Hv|apply vr_refl|discriminate]|]. intros nb mb Hb _ _. apply sim_ret. cbn. auto.
     - destruct (to_gindex (ll' - 1) (tree_depth (TList t limit))) as [g|]; [|reflexivity]. cbn [bind].
-      eapply sim_bind; [apply vr_setter_g; [exact Hv|exact I|discriminate]|]. intros nb mb Hb _ _. apply sim_ret. cbn. auto. }
+      eapply sim_bind; [apply vr_setter_g; [exact Hv|apply vr_refl|discriminate]|]. intros nb mb Hb _ _. apply sim_ret. cbn. auto. }
   apply (sim_bind _ vr _ _ _ _ Hab). intros [[nb g] can] [[mb g'] can'] (Hb & Eg & Ec) _ _. cbn [fst snd] in *. subst g' can'.
   match goal with |- sim _ (bind ?A _) (bind ?B _) => assert (sim vr A B) as Hab2 by (destruct can; [now apply vr_summarize_up|now apply sim_ret]) end.
-  apply (sim_bind vr vr _ _ _ _ Hab2). intros nb2 mb2 Hb2 _ _. apply vr_rebind_right; [exact Hb2|exact I].
+  apply (sim_bind vr vr _ _ _ _ Hab2). intros nb2 mb2 Hb2 _ _. apply vr_rebind_right; [exact Hb2|apply vr_refl].
 Qed.
 
 Lemma vr_bits_len t v m : vr v m -> sim eq (bits_len H src t v) (bits_len H src t m).
@@ -223,9 +238,9 @@ Proof.
   intros Hv. unfold ModelMut.bits_set. apply (sim_bind eq vr _ _ _ _ (vr_bits_len t v m Hv)). intros ll ll' -> _ _.
   destruct ((i <? 0)%Z || (Z.of_N ll' <=? i)%Z); [reflexivity|]. cbv zeta.
   match goal with |- sim _ (match ?A with _ => _ end) (match ?B with _ => _ end) => assert (sim vr A B) as Hab end.
-  { apply (sim_bind vr vr _ _ _ _ (vr_setter_i false v m _ _ (RootN zero32) Hv I ltac:(discriminate))). intros _ _ _ _ _.
+  { apply (sim_bind vr vr _ _ _ _ (vr_setter_i false v m _ _ (RootN zero32) (RootN zero32) Hv (vr_refl _) ltac:(discriminate))). intros _ _ _ _ _.
     apply (sim_bind vr vr _ _ _ _ (vr_getter_i v m _ _ Hv)). intros c c' Hc _ _. rewrite (vr_root c c' Hc).
-    apply vr_setter_i; [exact Hv|exact I|discriminate]. }
+    apply vr_setter_i; [exact Hv|apply vr_refl|discriminate]. }
   unfold sim in Hab. match type of Hab with match ?B with _ => _ end => destruct B as [y|e] end.
   - destruct Hab as (x & -> & Hxy). now apply sim_ret.
   - rewrite Hab. reflexivity.
@@ -237,11 +252,11 @@ Proof.
   apply (sim_bind eq vr _ _ _ _ (vr_mixin v m Hv)). intros ll ll' -> _ Hmm. pose proof (mixin_children m ll' Hmm) as Hch.
   destruct (limit <=? ll'); [reflexivity|]. cbv zeta.
   match goal with |- sim _ (bind ?A _) (bind ?B _) => assert (sim vr A B) as Hab end.
-  { destruct (ll' mod 256 =? 0); [apply vr_setter_i; [exact Hv|exact I|auto]|].
-    apply (sim_bind vr vr _ _ _ _ (vr_setter_i false v m _ _ (RootN zero32) Hv I ltac:(discriminate))). intros _ _ _ _ _.
+  { destruct (ll' mod 256 =? 0); [apply vr_setter_i; [exact Hv|apply vr_refl|auto]|].
+    apply (sim_bind vr vr _ _ _ _ (vr_setter_i false v m _ _ (RootN zero32) (RootN zero32) Hv (vr_refl _) ltac:(discriminate))). intros _ _ _ _ _.
     apply (sim_bind vr vr _ _ _ _ (vr_getter_i v m _ _ Hv)). intros c c' Hc _ _. rewrite (vr_root c c' Hc).
-    apply vr_setter_i; [exact Hv|exact I|discriminate]. }
-  apply (sim_bind vr vr _ _ _ _ Hab). intros nb mb Hb _ _. apply vr_rebind_right; [exact Hb|exact I].
+    apply vr_setter_i; [exact Hv|apply vr_refl|discriminate]. }
+  apply (sim_bind vr vr _ _ _ _ Hab). intros nb mb Hb _ _. apply vr_rebind_right; [exact Hb|apply vr_refl].
 Qed.
 
 Theorem vr_bitlist_pop t v m : vr v m -> sim vr (bitlist_pop H src t v) (bitlist_pop H src t m).
@@ -251,13 +266,13 @@ Proof.
   destruct (ll' =? 0); [reflexivity|]. cbv zeta.
   destruct (to_gindex ((ll' - 1) / 256) (tree_depth (TBitlist limit))) as [g|]; [|reflexivity]. cbn [bind].
   match goal with |- sim _ (bind ?A _) (bind ?B _) => assert (sim vr A B) as Hab end.
-  { destruct ((ll' - 1) mod 256 =? 0); [apply vr_setter_g; [exact Hv|exact I|discriminate]|].
-    apply (sim_bind vr vr _ _ _ _ (vr_setter_g false v m g (RootN zero32) Hv I ltac:(discriminate))). intros _ _ _ _ _.
+  { destruct ((ll' - 1) mod 256 =? 0); [apply vr_setter_g; [exact Hv|apply vr_refl|discriminate]|].
+    apply (sim_bind vr vr _ _ _ _ (vr_setter_g false v m g (RootN zero32) (RootN zero32) Hv (vr_refl _) ltac:(discriminate))). intros _ _ _ _ _.
     apply (sim_bind vr vr _ _ _ _ (vr_getter_g v m g Hv)). intros c c' Hc _ _. rewrite (vr_root c c' Hc).
-    apply vr_setter_g; [exact Hv|exact I|discriminate]. }
+    apply vr_setter_g; [exact Hv|apply vr_refl|discriminate]. }
   apply (sim_bind vr vr _ _ _ _ Hab). intros nb mb Hb _ _.
   match goal with |- sim _ (bind ?A _) (bind ?B _) => assert (sim vr A B) as Hab2 by (destruct (N.even g && _); [now apply vr_summarize_up|now apply sim_ret]) end.
-  apply (sim_bind vr vr _ _ _ _ Hab2). intros nb2 mb2 Hb2 _ _. apply vr_rebind_right; [exact Hb2|exact I].
+  apply (sim_bind vr vr _ _ _ _ Hab2). intros nb2 mb2 Hb2 _ _. apply vr_rebind_right; [exact Hb2|apply vr_refl].
 Qed.
 
 Theorem vr_union_selector t v m : vr v m -> sim eq (union_selector H src t v) (union_selector H src t m).
@@ -345,10 +360,8 @@ Proof.
 Qed.
 
 (* where it starts: a virtual node over a source that is a root-keyed store of the materialised tree *)
-Lemma consistent_novirt m : consistent H src m -> novirt m.
-Proof. induction m as [r|l IHl r IHr|r]; cbn; auto. intros (_ & Hl & Hr). split; auto. Qed.
 Theorem vr_start m : consistent H src m -> vr (VirtN (root m)) m.
-Proof. intros Hc. split; [now constructor|now apply consistent_novirt]. Qed.
+Proof. intros Hc. now constructor. Qed.
 Theorem vr_same_root v m : vr v m -> root v = root m.
 Proof. exact (vr_root v m). Qed.
 End WithHash.
